@@ -133,6 +133,10 @@ func runPe(sc M) {
 				mut := append([]byte{}, img.b...)
 				mut[p] ^= 0x01 << (uint(p) % 8)
 				d2, f2 := libDigest(mut)
+				if f2 != "" && r.Name == "dd4.va" {
+					// the flipped address moved the certificate table outside the file: no longer a well-formed image
+					continue
+				}
 				nflip++
 				changed := f2 != "" || !bytes.Equal(d2, got)
 				cov := covered(ranges, p)
